@@ -119,8 +119,12 @@ func (P *Program) compat(a, b Contract) (ok bool, decided bool) {
 		return false, true
 	case a.Kind == CBytes && b.Kind == CBytes:
 		return a.N == b.N && a.Sym == b.Sym, true
-	case a.Kind == CSub && b.Kind == CSub, a.Kind == CRecord && b.Kind == CRecord:
+	case a.Kind == CSub && b.Kind == CSub:
 		return a.Field == b.Field, true
+	case a.Kind == CRecord && b.Kind == CRecord:
+		// the entry's codec field named from the codec ("fields[].codec") or from inside a helper method of the
+		// entry itself ("codec") is the same field
+		return a.Field == b.Field || strings.HasSuffix(a.Field, "."+b.Field) || strings.HasSuffix(b.Field, "."+a.Field), true
 	case a.Kind == CMapHeader && b.Kind == CMapHeader:
 		return true, true
 	}
@@ -636,6 +640,16 @@ func sliceElemsBuiltFrom(P *Program, lit ssa.Value, fld string, typ *ssa.Paramet
 
 func ruleBTRec(c *Ctx) {
 	c.Rule("BT-REC", "a record field's offset and the Go type its codec is built for come from the same struct field, and both end up in the same field entry", 3)
+	if rf := recordByFold(c.P); rf.ok {
+		P := c.P
+		key := fnKey(rf.builder)
+		pos := P.pos(rf.builder.Pos())
+		msg := "the record builder folded for schema (a, gone, b, n1, n2, c) and struct {B, A, X, N1, N2, C chan}: each entry's offset and the Go type its codec is built for are those of the struct field of the schema field's name; an absent field gets a nil type"
+		c.Check(rf.problems["pair"] == "", key+"/offset~type", pos, msg, rf.problems["pair"])
+		c.Check(rf.problems["list"] == "" && rf.problems["entry"] == "", key+"/entry", pos, msg, rf.problems["list"]+rf.problems["entry"])
+		c.Check(rf.problems["pair"] == "", key+"/field-source", pos, msg, rf.problems["pair"])
+		return
+	}
 	P := c.P
 	fn := P.Func(P.Avro, "buildRecordCodec")
 	if !c.Anchor(fn != nil, "record codec builder") {
